@@ -54,12 +54,13 @@ var errFromCaller = errors.New("c11-answer-from-pipeline-caller")
 var errFromCap = errors.New("c11-answer-from-capability")
 
 type world struct {
-	mu        sync.Mutex
-	delivered map[int][]string // call index -> where it was received
-	completed []completion
-	gates     map[int]chan struct{}
-	gated     map[int]bool
-	paths     map[int]string // expected transform of a call, for the PipelineCaller
+	mu         sync.Mutex
+	delivered  map[int][]string // call index -> where it was received
+	completed  []completion
+	gates      map[int]chan struct{}
+	gated      map[int]bool
+	paths      map[int]string // expected transform of a call, for the PipelineCaller
+	resultMsgs []*capnp.Message
 }
 
 type completion struct {
@@ -238,7 +239,7 @@ func parseStep(s string) step {
 				st.capsL = append(st.capsL, p[0])
 			}
 		}
-	case "R", "L", "W":
+	case "R", "L", "W", "Z":
 	case "S", "V":
 		st.path = parsePath(f[1])
 		st.gated = f[2] == "1"
@@ -289,6 +290,9 @@ func buildResult(w *world, caps map[string]int, order []string, capClients map[i
 	if err != nil {
 		panic(err)
 	}
+	w.mu.Lock()
+	w.resultMsgs = append(w.resultMsgs, msg)
+	w.mu.Unlock()
 	clientFor := func(k int) *capnp.Client {
 		if c, ok := capClients[k]; ok {
 			return c
@@ -494,6 +498,19 @@ func runSeq(h *hist, steps []step) {
 				} else {
 					w.complete(i, "ok")
 				}
+			}()
+		case 'Z':
+			// the owner of the result: waits for Done, then releases the result message(s)
+			go func() {
+				<-p.Answer().Done()
+				w.mu.Lock()
+				ms := w.resultMsgs
+				w.resultMsgs = nil
+				w.mu.Unlock()
+				for _, m := range ms {
+					m.Reset(nil)
+				}
+				w.complete(i, "ret")
 			}()
 		case 'U':
 			go func() {
@@ -774,6 +791,9 @@ func genBusy(r *Rand) string {
 		}
 	}
 	steps = append(steps, "W", "K:0:0", "L", "K:0:0", "L", "R:-")
+	if r.Intn(3) == 0 {
+		steps = append(steps, "Z")
+	}
 	return "seq " + strings.Join(steps, " ")
 }
 
@@ -876,6 +896,9 @@ func genHistory(r *Rand, maxOps int) string {
 		tail = append(tail[1:], tail[0])
 	}
 	tail = append(tail, "L", "W", "K:0:0", "C:"+set[0]+":1", "K:1:0", "L")
+	if r.Intn(3) == 0 {
+		tail = append(tail, "Z") // nothing reads the result afterwards
+	}
 	return "seq " + strings.Join(append(steps, tail...), " ")
 }
 
@@ -884,9 +907,9 @@ func runC11(out *Out, r *Rand, tier string, replay []string) {
 	if replay != nil {
 		lines = replay
 	} else {
-		n, maxOps := 1500, 10
+		n, maxOps := 4000, 10
 		if tier == "thorough" {
-			n, maxOps = 20000, 18
+			n, maxOps = 150000, 18
 		}
 		for i := 0; i < n; i++ {
 			lines = append(lines, genHistory(r, maxOps))
